@@ -11,7 +11,7 @@ Further families (each a finite product that is executed completely):
   shapes   18 more shapes of types / constants and 12 more shapes of API functions, globals and constants
   first    WHAT touches an included type first: its name, the includer's dependent type, or a lib function
   how      include() after a first cdef(), twice, into an FFI that declares nothing, before a later cdef() of
-           the included FFI
+           the included FFI, and emission of all modules only after every FFI of the chain was built
   naming   modules inside a package (dotted names) / included module imported and used before the includer
   long     chains of 4 and 5 FFIs (chain, 4-node diamond, a miss that returns from depth 2 before the hit)
 
@@ -56,7 +56,7 @@ META = dict(
          "value, array / struct / function-pointer / const globals, double / string / struct constants, extern "
          "\"Python\") as single kinds (thorough: paired with every original kind); what is touched first (the name, the "
          "includer's dependent type, a lib function); include() after a first cdef, twice, into an empty FFI, before "
-         "a later cdef of the included FFI; modules in a package and included module used before the includer is "
+         "a later cdef of the included FFI, modules emitted only after every FFI of the chain was built; modules in a package and included module used before the includer is "
          "imported; chains of 4 and 5 FFIs; cross-FFI behaviour (new / assignment / addressof / offsetof / passing "
          "cdata of one FFI to the other's function) wherever identity held; numbered anonymous structs also in API mode.",
     note="layout expectations come from gcc (cref); API modules are the generator's C files compiled with gcc -O0; "
@@ -913,16 +913,23 @@ def enumerate_space(quick):
                 elif len(du) == 3 and topo != "L3_diamond":
                     continue
                 add("base", "api", du, topo, order)
-    # ---- shapes: further declaration shapes, alone and (thorough) next to every original kind
-    for du in singles_new + ([] if quick else pairs_new):
+    # ---- shapes: further declaration shapes, alone and (thorough) next to every original kind (in-line and ABI on three
+    # chain shapes, API on A<-B<-C used in C)
+    for du in singles_new:
         for topo in TOPOS:
             for order in ORDERS:
                 add("shapes", "abi", du, topo, order)
                 add("shapes", "inline", du, topo, order)
-                if len(du) == 1:
-                    add("shapes", "inline", du, topo, order, "reused")
-                if len(du) == 1 or topo == "L3_use_last":
-                    add("shapes", "api", du, topo, order)
+                add("shapes", "inline", du, topo, order, "reused")
+                add("shapes", "api", du, topo, order)
+    for du in ([] if quick else pairs_new):
+        for topo in HOW_TOPOS:
+            for order in ORDERS:
+                add("shapes", "abi", du, topo, order)
+                if not quick:
+                    add("shapes", "inline", du, topo, order)
+                    if topo == "L3_use_last":
+                        add("shapes", "api", du, topo, order)
     # ---- first: what touches the included type first
     for du in singles + ([] if quick else pairs_old):
         for topo in (TOPOS if len(du) == 1 else ["L3_use_last", "L3_diamond"]):
@@ -935,7 +942,7 @@ def enumerate_space(quick):
     # ---- how: the way include() is called
     for du in singles + ([] if quick else pairs_old):
         for how in HOWS[1:]:
-            for topo in (HOW_TOPOS if len(du) == 1 else ["L2"]):
+            for topo in ((HOW_TOPOS[::2] if quick else HOW_TOPOS) if len(du) == 1 else ["L2"]):
                 for order in ORDERS:
                     add("how", "abi", du, topo, order, how=how)
                     if how != "emit_late":       # in-line there is no emission
@@ -945,7 +952,7 @@ def enumerate_space(quick):
     # ---- naming: dotted module names, included module imported and used first
     for du in singles:
         for naming in NAMINGS[1:]:
-            for topo in HOW_TOPOS:
+            for topo in (HOW_TOPOS[::2] if quick else HOW_TOPOS):
                 for order in ORDERS:
                     add("naming", "abi", du, topo, order, naming=naming)
                     if topo == "L2" and (naming == "package+baseused" or not quick):
@@ -957,7 +964,7 @@ def enumerate_space(quick):
                 for first in (("name",) if quick else ("name", "usage", "lib")):
                     add("long", "abi", du, topo, order, first=first)
                     add("long", "inline", du, topo, order, first=first)
-                    if len(du) == 1:
+                    if len(du) == 1 and not (quick and topo == "L4_chain"):
                         add("long", "api", du, topo, order, first=first)
     return space, kmax, len(base)
 
@@ -1091,23 +1098,33 @@ def run(ctx):
                 "includes an unrelated B first and then A) x 2 realization orders, "
                 "run in-line with a fresh and with an already-used included FFI%s, and as out-of-line ABI modules; API: %s.  "
                 "shapes: 18 further type / constant shapes and 12 further API function / global / constant shapes as "
-                "single kinds%s on the same chains, orders and modes.  first: every single kind%s whose declaration is "
-                "touched first by the includer's dependent type or (API) by a lib function.  how: every single kind%s "
+                "single kinds on the same chains, orders and modes%s.  "
+                "first: every single kind%s whose declaration is "
+                "touched first by the includer's dependent type or (API) by a lib function, on the 5 chain shapes.  "
+                "how: every single kind%s "
                 "x include() after a first cdef / twice / into FFIs without own declarations / followed by a later "
-                "cdef of the included FFI on A<-B, A<-B<-C, diamond.  naming: every single kind in ABI modules inside "
-                "a package and / or with the included module imported and used before the includer (API: A<-B).  "
+                "cdef of the included FFI / all modules emitted only after all FFIs were built, on %s "
+                "(API: %s).  naming: every single kind in ABI modules inside "
+                "a package and / or with the included module imported and used before the includer, same chain shapes "
+                "(API on A<-B: %s).  "
                 "long: every single kind%s on a chain of 4, a 4-node diamond and a 5-FFI chain whose first include "
-                "misses at depth 2.  Cases per family: %s.  API cases are batched by name mangling into %d chains of compiled "
-                "modules, every (order, first) variant in its own forked process.  "
+                "misses at depth 2, all modes%s.  Cases per family: %s.  API cases are batched by name mangling into %d chains of compiled "
+                "modules, every (order, first) variant in its own forked process; a chain that cannot be built is "
+                "isolated and reported alone.  "
                 "non-trivial = more than one kind, or a chain of 3 or more, or a usage other than by-name, or a "
                 "non-default first / how / naming (distinct cases)" % (
                     kmax, nbase, " (the latter for single kinds only)" if ctx.quick else "",
                     "single kinds on all shapes and pairs on A<-B<-C used in C" if ctx.quick else
                     "singles and pairs on all shapes, triples on the diamond",
-                    "" if ctx.quick else " and paired with every original kind",
-                    "" if ctx.quick else " and every pair of original kinds",
-                    "" if ctx.quick else " and every pair of original kinds (A<-B)",
-                    "" if ctx.quick else " and every pair of original kinds, each also usage-first / lib-first",
+                    "" if ctx.quick else ", and paired with every original kind (in-line and as ABI modules on A<-B, A<-B<-C, "
+                    "diamond, API on A<-B<-C used in C)",
+                    "" if ctx.quick else " and every pair of original kinds (on A<-B<-C used in C and the diamond)",
+                    "" if ctx.quick else " and (A<-B) every pair of original kinds",
+                    "A<-B and the diamond" if ctx.quick else "A<-B, A<-B<-C and the diamond",
+                    "A<-B" if ctx.quick else "all three",
+                    "package + used first" if ctx.quick else "all three variants",
+                    "" if ctx.quick else " and (in-line / ABI) every pair of original kinds, each also usage-first / lib-first",
+                    " (API: not the chain of 4)" if ctx.quick else "",
                     ", ".join("%s %d" % kv for kv in sorted(fam.items())), len(aitems)),
         "exhaustive": True,
         "bound": {"max_kinds_per_included_ffi": kmax, "max_chain": 5, "api_cases": n_api,
